@@ -5,19 +5,22 @@ package core
 // C26: enumerated spaces (see zz_verif_C26_test.go for the differential driver).
 
 import (
+	"crypto/ecdsa"
 	"encoding/json"
 	"fmt"
 	"math/big"
 	"os"
-	"runtime/debug"
 	"strings"
 	"sync"
 	"testing"
 
 	"github.com/ethereum/go-ethereum/common"
+	"github.com/ethereum/go-ethereum/core/types"
+	"github.com/ethereum/go-ethereum/crypto"
 	"github.com/ethereum/go-ethereum/internal/verif/mc"
 	"github.com/ethereum/go-ethereum/internal/verif/progx"
 	"github.com/ethereum/go-ethereum/internal/verif/refevm"
+	"github.com/holiman/uint256"
 )
 
 var (
@@ -32,6 +35,10 @@ const c26Ample = 1_000_000
 
 func c26B(i int) common.Address {
 	return common.HexToAddress(fmt.Sprintf("0x0000000000000000000000000000000000b0b0%02x", i))
+}
+
+func c26D(i int) common.Address {
+	return common.HexToAddress(fmt.Sprintf("0x0000000000000000000000000000000000d0d0%02x", i))
 }
 
 func c26Slot(i int64) common.Hash { return common.BigToHash(big.NewInt(i)) }
@@ -67,6 +74,10 @@ func c26World(code []byte) refevm.World {
 		w[c26B(i)] = &refevm.Account{Nonce: 1, Balance: big.NewInt(10), Code: c, Storage: map[common.Hash]common.Hash{c26Slot(1): c26Slot(1)}}
 	}
 	w[c26EOA] = &refevm.Account{Balance: big.NewInt(1), Storage: map[common.Hash]common.Hash{}}
+	// EIP-7702 delegated accounts: D1 -> B5 (gas reporter), D2 -> D1 (chain: not followed), D3 -> precompile 0x04 (runs as empty code), D4 -> B1
+	for i, t := range []common.Address{c26B(5), c26D(1), common.BytesToAddress([]byte{4}), c26B(1)} {
+		w[c26D(i+1)] = &refevm.Account{Nonce: 1, Balance: big.NewInt(1), Code: append([]byte{0xef, 0x01, 0x00}, t[:]...), Storage: map[common.Hash]common.Hash{}}
+	}
 	return w
 }
 
@@ -143,7 +154,13 @@ func c26GasGrid(r *mc.R, st *c26Stats, f c26Fork, pre *c26Pre, desc map[string]a
 	if n == c26Ample { // consumed everything: no boundary to probe
 		return
 	}
+	if lite, _ := desc["lite"].(bool); lite && r.Quick() {
+		return // quick tier, longest sequences: ample gas only
+	}
 	run(n-1, "need-1")
+	if lite, _ := desc["lite"].(bool); lite {
+		return
+	}
 	run(n, "need")
 	if r.Thorough() {
 		run(n+1, "need+1")
@@ -151,7 +168,6 @@ func c26GasGrid(r *mc.R, st *c26Stats, f c26Fork, pre *c26Pre, desc map[string]a
 }
 
 func TestVerif_C26(t *testing.T) {
-	defer debug.SetGCPercent(debug.SetGCPercent(400)) // many small short-lived allocations; the live heap is tiny
 	mc.Run(t, "C26", func(r *mc.R) {
 		st := &c26Stats{oc: map[string]int64{}}
 		r.Rule("each case = one block of 1-2 transactions applied by go-ethereum (TransactionToMessage+ApplyMessage+Finalise+MakeReceipt+IntermediateRoot) and by the " +
@@ -179,7 +195,7 @@ func TestVerif_C26(t *testing.T) {
 		for _, p := range []struct {
 			name string
 			run  func(*mc.R, *c26Stats)
-		}{{"units", c26Sequences}, {"twotx", c26TwoTx}, {"opgrid", c26OpGrids}, {"envelope", c26Envelope}} {
+		}{{"units", c26Sequences}, {"twotx", c26TwoTx}, {"opgrid", c26OpGrids}, {"setcode", c26SetCode}, {"envelope", c26Envelope}} {
 			if (part == "" || part == p.name) && !r.Expired() {
 				p.run(r, st)
 			}
@@ -301,12 +317,15 @@ func c26Envelope(r *mc.R, st *c26Stats) {
 			return out
 		}
 		if sh.kind == "grid" {
-			nal := len(als)
+			ais := []int{0, 1, 2, 3}
+			if r.Quick() {
+				ais = []int{0, 3}
+			}
 			if sh.typ == refevm.TxLegacy {
-				nal = 1
+				ais = []int{0}
 			}
 			for di, data := range sh.rc.data {
-				for ai := 0; ai < nal; ai++ {
+				for _, ai := range ais {
 					for _, value := range []int64{0, 1} {
 						for _, fee := range fees[sh.typ] {
 							desc := func(gas uint64) map[string]any {
@@ -327,6 +346,9 @@ func c26Envelope(r *mc.R, st *c26Stats) {
 							{
 								n := ref.GasSpent
 								gases = append(gases, n-1, n, n+1)
+								if r.Quick() {
+									gases = []uint64{ig - 1, ig, fl - 1, fl, n - 1, n}
+								}
 								if di == 0 && ai == 0 && value == 0 {
 									r.Sample(desc(c26Ample))
 								}
@@ -852,6 +874,17 @@ func c26Units() []c26Unit {
 	for _, i := range []int{1, 2, 4, 7, 8} {
 		call(fmt.Sprintf("DELEGATECALL(B%d)", i), progx.DELEGATECALL, c26B(i), nil, 0)
 	}
+	call("CALL(D1)", progx.CALL, c26D(1), nil, 0)
+	call("CALL(D1,v=1)", progx.CALL, c26D(1), nil, 1)
+	call("CALL(D2)", progx.CALL, c26D(2), nil, 0)
+	call("CALL(D3)", progx.CALL, c26D(3), nil, 0)
+	call("CALL(D4)", progx.CALL, c26D(4), nil, 0)
+	call("STATICCALL(D1)", progx.STATICCALL, c26D(1), nil, 0)
+	call("DELEGATECALL(D4)", progx.DELEGATECALL, c26D(4), nil, 0)
+	call("CALLCODE(D1)", progx.CALLCODE, c26D(1), nil, 0)
+	acct("EXTCODESIZE(D1)", progx.EXTCODESIZE, c26D(1))
+	acct("EXTCODEHASH(D1)", progx.EXTCODEHASH, c26D(1))
+	add("EXTCODECOPY(D1,0,0,32)", func(p *progx.Prog, res uint64) { p.Push(32).Push(0).Push(0).PushAddr(c26D(1)).Op(progx.EXTCODECOPY) })
 	call("CALLCODE(B1,v=1)", progx.CALLCODE, c26B(1), nil, 1)
 	call("CALLCODE(B4)", progx.CALLCODE, c26B(4), nil, 0)
 	add("RETURNDATASIZE", func(p *progx.Prog, res uint64) { p.Op(progx.RETURNDATASIZE); store(p, res) })
@@ -926,7 +959,11 @@ func c26Sequences(r *mc.R, st *c26Stats) {
 				names[i] = us[u].name
 			}
 			pre := base.withCode(c26SeqProgram(us, seq))
-			c26GasGrid(r, st, sh.f, pre, map[string]any{"part": "units", "seq": names}, func(gas uint64) *refevm.Tx {
+			d := map[string]any{"part": "units", "seq": names}
+			if len(seq) >= maxLen && maxLen > 1 {
+				d["lite"] = true // longest sequences of the tier: gas grid {need-1, ample} only
+			}
+			c26GasGrid(r, st, sh.f, pre, d, func(gas uint64) *refevm.Tx {
 				return c26CallTx(gas, 1, []byte{0xde, 0xad, 0xbe, 0xef})
 			})
 			if len(seq) < maxLen {
@@ -955,7 +992,7 @@ func c26StateChanging(name string) bool {
 
 // c26Observing: units whose result or cost depends on what an earlier transaction left behind.
 func c26Observing(name string) bool {
-	for _, p := range []string{"SLOAD", "TLOAD", "BALANCE", "SELFBALANCE", "EXTCODE", "GAS", "CALL(B5)", "CALL(B7)", "STATICCALL(B7)", "CALL(none)"} {
+	for _, p := range []string{"SLOAD", "TLOAD", "BALANCE", "SELFBALANCE", "EXTCODE", "GAS", "CALL(B5)", "CALL(B7)", "STATICCALL(B7)", "CALL(none)", "CALL(D1)", "CALL(D4)"} {
 		if strings.HasPrefix(name, p) {
 			return true
 		}
@@ -1020,6 +1057,195 @@ func c26TwoTx(r *mc.R, st *c26Stats) {
 			if u2 == sh.u1 {
 				r.Sample(c)
 			}
+		}
+	})
+}
+
+
+// ---------------------------------------------------------------------------
+// Part 5: EIP-7702 set-code transactions (Prague, Osaka): all authorization lists of 1..2 tuples from a tuple
+// alphabet x pre-state of the authority x recipient x gas grid.
+
+type c26AuthKind struct {
+	name    string
+	key     int    // 0 = the sender's key, 1 = X1, 2 = X2
+	chain   uint64 // chain id in the tuple
+	target  string // "B5", "B1", "zero", "X1"
+	nonce   string // "cur", "cur+1", "max"
+	sig     string // "valid", "highS", "zero"
+}
+
+func c26AuthKinds() []c26AuthKind {
+	return []c26AuthKind{
+		{"X1->B5", 1, 1, "B5", "cur", "valid"},
+		{"X1->B1/chain0", 1, 0, "B1", "cur", "valid"},
+		{"X1->B5/nonce+1", 1, 1, "B5", "cur+1", "valid"},
+		{"X1->B5/chain2", 1, 2, "B5", "cur", "valid"},
+		{"X1->clear", 1, 1, "zero", "cur", "valid"},
+		{"X1->B5/highS", 1, 1, "B5", "cur", "highS"},
+		{"X1->B5/zerosig", 1, 1, "B5", "cur", "zero"},
+		{"X1->B5/noncemax", 1, 1, "B5", "max", "valid"},
+		{"S->B5/nonce+1", 0, 1, "B5", "cur+1", "valid"},
+		{"S->B5/stale", 0, 1, "B5", "cur", "valid"},
+		{"X2->X1", 2, 1, "X1", "cur", "valid"},
+		{"X1->X1", 1, 1, "X1", "cur", "valid"},
+	}
+}
+
+func c26Key(i int) *ecdsa.PrivateKey {
+	k, err := crypto.ToECDSA(c26Bytes(32, byte(0x11*(i+1))))
+	if err != nil {
+		panic(err)
+	}
+	return k
+}
+
+func c26KeyAddr(i int) common.Address { return crypto.PubkeyToAddress(c26Key(i).PublicKey) }
+
+func c26SetCode(r *mc.R, st *c26Stats) {
+	kinds := c26AuthKinds()
+	maxLen := mc.Pick(r, 2, 3)
+	r.Bound("setcode.tuple_alphabet", len(kinds))
+	r.Bound("setcode.max_list_length", maxLen)
+	S, X1, X2 := c26KeyAddr(0), c26KeyAddr(1), c26KeyAddr(2)
+	type variant struct {
+		name string
+		x1   *refevm.Account
+	}
+	em := func() map[common.Hash]common.Hash { return map[common.Hash]common.Hash{} }
+	variants := []variant{
+		{"absent", nil},
+		{"eoa", &refevm.Account{Balance: big.NewInt(5), Storage: em()}},
+		{"eoa-nonce3", &refevm.Account{Nonce: 3, Balance: big.NewInt(5), Storage: em()}},
+		{"delegated-B1", &refevm.Account{Nonce: 1, Balance: big.NewInt(5), Code: append([]byte{0xef, 0x01, 0x00}, c26B(1).Bytes()...), Storage: em()}},
+		{"contract", &refevm.Account{Nonce: 1, Balance: big.NewInt(5), Code: []byte{0x00}, Storage: em()}},
+	}
+	rcpts := []struct {
+		name string
+		to   common.Address
+	}{{"B5", c26B(5)}, {"X1", X1}, {"X2", X2}, {"S", S}}
+	var forks []c26Fork
+	for _, f := range c26Forks() {
+		if f.ref >= refevm.Prague {
+			forks = append(forks, f)
+		}
+	}
+	type shard struct {
+		f     c26Fork
+		v     variant
+		first int
+	}
+	var shards []shard
+	for _, f := range forks {
+		for _, v := range variants {
+			for i := range kinds {
+				shards = append(shards, shard{f, v, i})
+			}
+		}
+	}
+	secpN := crypto.S256().Params().N
+	r.Parallel(len(shards), func(si int) {
+		sh := shards[si]
+		w := c26World(c26Callees()[1])
+		w[S] = &refevm.Account{Nonce: 5, Balance: big.NewInt(1e18), Storage: em()}
+		if sh.v.x1 != nil {
+			w[X1] = sh.v.x1
+		}
+		pre := c26NewPre(w)
+		curNonce := func(key int) uint64 {
+			switch key {
+			case 0:
+				return 5
+			case 1:
+				if sh.v.x1 != nil {
+					return sh.v.x1.Nonce
+				}
+			}
+			return 0
+		}
+		build := func(seq []int) ([]refevm.Authorization, []types.SetCodeAuthorization) {
+			var ra []refevm.Authorization
+			var ga []types.SetCodeAuthorization
+			for _, ki := range seq {
+				k := kinds[ki]
+				var target common.Address
+				switch k.target {
+				case "B5":
+					target = c26B(5)
+				case "B1":
+					target = c26B(1)
+				case "X1":
+					target = X1
+				}
+				nonce := curNonce(k.key)
+				switch k.nonce {
+				case "cur+1":
+					nonce++
+				case "max":
+					nonce = ^uint64(0)
+				}
+				auth, err := types.SignSetCode(c26Key(k.key), types.SetCodeAuthorization{ChainID: *uint256.NewInt(k.chain), Address: target, Nonce: nonce})
+				if err != nil {
+					panic(err)
+				}
+				signer := c26KeyAddr(k.key)
+				authority := &signer
+				switch k.sig {
+				case "highS": // the other root of the same signature: recoverable, but EIP-7702 (like EIP-2) requires s <= n/2
+					s := new(big.Int).Sub(secpN, auth.S.ToBig())
+					auth.S = *uint256.MustFromBig(s)
+					auth.V ^= 1
+					authority = nil
+				case "zero":
+					auth.R, auth.S = uint256.Int{}, uint256.Int{}
+					authority = nil
+				}
+				ra = append(ra, refevm.Authorization{ChainID: new(big.Int).SetUint64(k.chain), Address: target, Nonce: nonce, Authority: authority})
+				ga = append(ga, auth)
+			}
+			return ra, ga
+		}
+		var rec func(seq []int)
+		rec = func(seq []int) {
+			if r.Expired() {
+				return
+			}
+			names := make([]string, len(seq))
+			for i, k := range seq {
+				names[i] = kinds[k].name
+			}
+			ra, ga := build(seq)
+			for ri, rc := range rcpts {
+				for _, value := range []int64{0, 1} {
+					if r.Quick() && len(seq) > 1 && (value != 0 || ri > 1) {
+						continue // quick: two-tuple lists only with recipients B5 and X1, value 0
+					}
+					to := rc.to
+					c26GasGrid(r, st, sh.f, pre, map[string]any{"part": "setcode", "x1": sh.v.name, "auths": names, "to": rc.name, "value": value}, func(gas uint64) *refevm.Tx {
+						return &refevm.Tx{Type: refevm.TxSetCode, From: S, To: &to, Nonce: 5, Value: big.NewInt(value), Gas: gas,
+							MaxFee: big.NewInt(20), MaxTip: big.NewInt(3), Data: []byte{1}, Auths: ra, Aux: ga}
+					})
+				}
+			}
+			if len(seq) < maxLen {
+				for k := range kinds {
+					rec(append(append([]int{}, seq...), k))
+				}
+			}
+		}
+		rec([]int{sh.first})
+		if sh.first == 0 {
+			// rejection: empty authorization list
+			to := c26B(5)
+			c := map[string]any{"part": "setcode", "fork": sh.f.name, "x1": sh.v.name, "auths": []string{}}
+			r.Case(c, func() error {
+				res, err := c26RunBlock(sh.f, pre, c26BlockGas, []*refevm.Tx{{Type: refevm.TxSetCode, From: S, To: &to, Nonce: 5, Value: big.NewInt(0), Gas: 100000,
+					MaxFee: big.NewInt(20), MaxTip: big.NewInt(3), Aux: []types.SetCodeAuthorization{}}})
+				if len(res) > 0 {
+					st.add("setcode:" + c26Classify(res))
+				}
+				return err
+			})
 		}
 	})
 }
